@@ -4,8 +4,9 @@ Uninterpreted symbols (only congruence and the listed size facts are known of th
   DH(kem, sk, pk)            4.1: the Diffie-Hellman function of the group of KEM `kem`; the private key is designated by
                              the serialization of ITS public key (sk = SerializePublicKey(pk(skX))), pk by
                              SerializePublicKey(pkY), so both arguments are byte strings
-  pk_ok(kem, enc)            7.1.1 DeserializePublicKey(enc) succeeds, validation of 7.1.4 included
-  lib_import_ok(kem, enc)    what the library's key import accepts (pk_ok ==> lib_import_ok is C08's statement)
+  dh_invalid(kem, sk, pk)    7.1.4: the DH result is the point at infinity / the all-zero value (the operation must abort)
+  pk_ok(kem, enc)            7.1.1 DeserializePublicKey(enc) succeeds, validation of 7.1.4 included; known of it: enc has
+                             Npk bytes and, for the NIST groups, is the UNCOMPRESSED SEC1 string (first octet 0x04)
   pk_canon(kem, enc)         SerializePublicKey(DeserializePublicKey(enc))
   aead_ct / aead_tag(fam, key, nonce, aad, pt)   RFC 5116 AEAD encryption: ciphertext proper and 16-byte tag
                              (fam 1: AEAD_AES_128_GCM / AEAD_AES_256_GCM, the AES variant being fixed by len(key);
@@ -17,8 +18,9 @@ from . import kdf
 
 SIG = {
     'DH': {'sort': 'bytes', 'uf': True},
-    'pk_ok': {'sort': 'bool', 'uf': True},
-    'lib_import_ok': {'sort': 'bool', 'uf': True},
+    'dh_invalid': {'sort': 'bool', 'uf': True},
+    'pk_ok': {'sort': 'bool', 'uf': True,
+              'facts': ['result ==> len(enc) == kem_npk(kem)', '(result and kem < 0x0020) ==> nth(enc, 0) == 4']},
     'pk_canon': {'sort': 'bytes', 'uf': True},
     'aead_ct': {'sort': 'bytes', 'uf': True, 'facts': ['len(result) == len(pt)']},
     'aead_tag': {'sort': 'bytes', 'uf': True, 'facts': ['len(result) == 16']},
@@ -26,7 +28,7 @@ SIG = {
     # result sorts of the defined functions (for `opaque=`)
     'suite_id_kem': 'bytes', 'suite_id_hpke': 'bytes', 'labeled_extract': 'bytes', 'labeled_expand': 'bytes',
     'extract_and_expand': 'bytes', 'dhkem_secret': 'bytes', 'kem_of_curve': 'int', 'kem_hash': 'int', 'kem_nsecret': 'int',
-    'kem_npk': 'int', 'kdf_hash': 'int', 'kdf_nh': 'int', 'lib_kdf_of_kem': 'int', 'aead_nk': 'int', 'aead_family': 'int',
+    'kem_npk': 'int', 'coord_size': 'int', 'kdf_hash': 'int', 'kdf_nh': 'int', 'lib_kdf_of_kem': 'int', 'aead_nk': 'int', 'aead_family': 'int',
     'aead_seal': 'bytes', 'nonce': 'bytes', 'psk_inputs_ok': 'bool', 'mode_of': 'int',
     'ks_context': 'bytes', 'ks_secret': 'bytes', 'ks_key': 'bytes', 'ks_base_nonce': 'bytes', 'ks_exporter_secret': 'bytes',
 }
@@ -37,11 +39,11 @@ def DH(kem, sk, pk):
     pass
 
 
-def pk_ok(kem, enc):
+def dh_invalid(kem, sk, pk):
     pass
 
 
-def lib_import_ok(kem, enc):
+def pk_ok(kem, enc):
     pass
 
 
@@ -80,73 +82,52 @@ def kem_of_curve(curve):
 def kem_hash(kem_id):
     """Table 2: the hash of the KEM's own KDF: DHKEM(P-256, HKDF-SHA256), (P-384, HKDF-SHA384), (P-521, HKDF-SHA512),
     (X25519, HKDF-SHA256), (X448, HKDF-SHA512)"""
-    if kem_id == 0x0010 or kem_id == 0x0020:
-        return 256
-    if kem_id == 0x0011:
-        return 384
-    return 512
+    return ite(kem_id in (0x0010, 0x0020), 256, ite(kem_id == 0x0011, 384, 512))
 
 
 def kem_nsecret(kem_id):
     """Table 2, column Nsecret"""
-    if kem_id == 0x0010 or kem_id == 0x0020:
-        return 32
-    if kem_id == 0x0011:
-        return 48
-    return 64
+    return ite(kem_id in (0x0010, 0x0020), 32, ite(kem_id == 0x0011, 48, 64))
 
 
 def kem_npk(kem_id):
     """Table 2, columns Nenc = Npk"""
-    if kem_id == 0x0010:
-        return 65
-    if kem_id == 0x0011:
-        return 97
-    if kem_id == 0x0012:
-        return 133
-    if kem_id == 0x0020:
+    return ite(kem_id == 0x0010, 65, ite(kem_id == 0x0011, 97, ite(kem_id == 0x0012, 133, ite(kem_id == 0x0020, 32, 56))))
+
+
+def coord_size(curve):
+    """SEC1 2.3.5: octets of one field element, ceil(log2(q)/8), of the NIST groups of Table 2 (0: not one of them)"""
+    if curve == 'NIST P-256':
         return 32
-    return 56
+    if curve == 'NIST P-384':
+        return 48
+    if curve == 'NIST P-521':
+        return 66
+    return 0
 
 
 def kdf_hash(kdf_id):
     """7.2, Table 3: 0x0001 HKDF-SHA256, 0x0002 HKDF-SHA384, 0x0003 HKDF-SHA512"""
-    if kdf_id == 0x0001:
-        return 256
-    if kdf_id == 0x0002:
-        return 384
-    return 512
+    return ite(kdf_id == 0x0001, 256, ite(kdf_id == 0x0002, 384, 512))
 
 
 def kdf_nh(kdf_id):
     """Table 3, column Nh"""
-    if kdf_id == 0x0001:
-        return 32
-    if kdf_id == 0x0002:
-        return 48
-    return 64
+    return ite(kdf_id == 0x0001, 32, ite(kdf_id == 0x0002, 48, 64))
 
 
 def lib_kdf_of_kem(kem_id):
     """the library's suites: the HPKE KDF is the HKDF over the hash the KEM itself uses"""
-    if kem_id == 0x0010 or kem_id == 0x0020:
-        return 0x0001
-    if kem_id == 0x0011:
-        return 0x0002
-    return 0x0003
+    return ite(kem_id in (0x0010, 0x0020), 0x0001, ite(kem_id == 0x0011, 0x0002, 0x0003))
 
 
 def aead_nk(aead_id):
     """7.3, Table 5, column Nk: 0x0001 AES-128-GCM 16, 0x0002 AES-256-GCM 32, 0x0003 ChaCha20Poly1305 32   (Nn = 12, Nt = 16 for all)"""
-    if aead_id == 0x0001:
-        return 16
-    return 32
+    return ite(aead_id == 0x0001, 16, 32)
 
 
 def aead_family(aead_id):
-    if aead_id == 0x0001 or aead_id == 0x0002:
-        return 1
-    return 2
+    return ite(aead_id in (0x0001, 0x0002), 1, 2)
 
 
 def aead_seal(aead_id, key, nonce, aad, pt):
@@ -242,4 +223,4 @@ def ks_exporter_secret(alg, suite_id, mode, shared_secret, info, psk, psk_id, nh
 # ====================================================================== 5.2: nonces
 def nonce(base_nonce, seq):
     """ComputeNonce: seq_bytes = I2OSP(seq, Nn); return xor(base_nonce, seq_bytes)        (Nn = 12)"""
-    return bxor(base_nonce, i2osp(seq, 12))
+    return bytes_xor(base_nonce, i2osp(seq, 12))
